@@ -92,6 +92,10 @@ package tree
 // ---------------------------------------------------------------- tree.go: lookup
 
 // Handler: the node/handler pair handed to the router.
+//@ fn Tree.match
+//@   requires treeOK(tree) && ctx != nil && allSafe() && lockFree(tree)
+//@   ensures [C06] released: lockFree(tree)
+//
 //@ fn Tree.Handler
 //@   requires treeOK(tree) && ctx != nil && allSafe() && lockFree(tree)
 //@   ensures [C18] trace: tree.hasTrace && method == "TRACE" ==> result2 && result1 == tree.trace && result0 == box(tree.node)
@@ -218,7 +222,7 @@ package tree
 //@   requires [C06] lock: heldW(n)
 //@   requires n != nil && allocated(n) && allSafe() && sepOK()
 //@   ensures [C03,C05] safe: allSafe() && sepOK()
-//@   inv 1 [C05] bound: -1 <= rangeindex && rangeindex < len(n.children) && allSafe() && sepOK()
+//@   inv 1 [C05] bound: -1 <= rangeindex && rangeindex < len(n.children) && allSafe() && sepOK() && allocated(n)
 //@   inv 1 [C03] only-covered: forall k int :: 0 <= k && k < len(dels) ==> hasPrefix(dels[k], prefix)
 //@   cut tree.node.clean 1 [C03] kept-across-recursion: forall k int :: 0 <= k && k < len(dels) ==> hasPrefix(dels[k], prefix)
 //@   cut tree.node.clean 1 fresh-across-recursion: fresh(dels) && allocated(dels)
